@@ -323,6 +323,8 @@ class GslHooks(StdHooks):
         if meth == 'operator=':
             src = it.lval(args[0])
             so = src.value
+            if hasattr(self, 'on_unique_reset'):
+                self.on_unique_reset(it, node, p, so.fields['p'].value if isinstance(so, Obj) and 'p' in so.fields else NULL)
             if isinstance(so, Obj) and 'p' in so.fields:
                 o.fields['p'].value = so.fields['p'].value
                 so.fields['p'].value = NULL
